@@ -76,7 +76,7 @@ def random_systems(chk, n_sys, seed):
             A = 0.5 * (A + A.T)
             A = A * np.where(rng.uniform(size=n) < 0.3, -1.0, 1.0)[None, :] * 1.0
             A = 0.5 * (A + A.T)
-        b = rng.standard_normal(n)
+        b = rng.standard_normal(n) * [1.0, 1.0, 1e4, 1e-5, 1e7, 1.0][k % 6]      # "all right-hand sides": magnitudes 1e-5 .. 1e7
         for solver in ("LU", "GMRES") + (("MINRES",) if sym else ()):
             for trans in (False, True):
                 fmt = ("coo", "csr", "csc")[k % 3]
@@ -99,6 +99,23 @@ def random_systems(chk, n_sys, seed):
                                                             else 1e-4 * (np.linalg.norm(Ae, 2) * np.linalg.norm(x) + np.linalg.norm(b)))
                 if not (np.isfinite(x).all() and res <= tol * (np.sqrt(n) if solver != "LU" else 1.0)):
                     chk.kernel_violation(("lin.random.residual", solver), {"n": n, "residual": float(res), "tol": float(tol), "trans": trans})
+                    continue
+                if solver != "LU" and k % 2 == (0 if trans else 1):
+                    # warm start on a right-hand side of small magnitude: a guess 20% off the solution must be iterated on, the
+                    # returned vector may not be worse than 10x the cold-start residual (relative) or 2e-2 |b|
+                    bs = b * 1e-6
+                    try:
+                        exact = np.linalg.solve(Ae, bs)
+                        cold = ls.solve(bs, trans=trans)
+                        warm = ls.solve(bs, trans=trans, initial_sol=lambda g=exact * 1.2: g.copy())
+                    except LinearSolverError:
+                        chk.case(("rand.warm", k, solver, trans, "raised"))
+                        continue
+                    rc = np.abs(Ae @ cold - bs).max() / np.abs(bs).max()
+                    rw = np.abs(Ae @ warm - bs).max() / np.abs(bs).max()
+                    chk.case(("rand.warm", k, solver, trans))
+                    if not (np.isfinite(warm).all() and rw <= max(10.0 * rc, 2e-2)):
+                        chk.kernel_violation(("lin.random.warmstart", solver), {"n": n, "relres_cold": float(rc), "relres_warm": float(rw), "trans": trans})
         if k % 2 == 0:
             # KKT-like symmetric indefinite matrix with tiny (non-zero) Hessian diagonal and O(1) coupling: moderate condition
             m = int(rng.integers(2, 8))
